@@ -4,12 +4,17 @@
 //        {absent, "red", "blue", 5, 7, true, false, ["red"], ["red","blue"], int 5} (100 states: values as a
 //        JSON client sends them, numbers being float64, plus the Go int 5 an embedding program may pass); 14 single-comparison filters over f (=, != on strings,
 //        numbers and booleans; <, <=, >, >= on numbers); each state is read live, after a clean restart
-//        from the log, after a snapshot + restart, and after compression to float16
+//        from the log, after a snapshot + restart, and after compression to float16; plus histories of
+//        vector a next to a fixed b (f = 7): for every (previous, final) pair out of 12 values (the 10 above,
+//        the strings "5" and "true" that print like a number / a boolean) the final state is reached by an
+//        in-place update (VSetMetadata), by delete + re-add, and a is deleted for good (432 histories),
+//        each compared live and after a restart with an index that reached the same metadata directly
 // rule: for every (state, filter) the ids VFilter returns live must equal the reference evaluation of the
 //        filter on the current metadata (string / boolean / numeric equality, list membership, numeric
 //        ranges, != also matching ids that lack the field), and the answers after log replay, after
-//        snapshot restore and after compression must equal the live answer; non-trivial = the reference
-//        answer is neither empty nor both ids
+//        snapshot restore and after compression must equal the live answer; for every history and filter
+//        the answer must equal the answer of the index built directly with the final metadata, live and
+//        after replaying the log; non-trivial = the reference answer is neither empty nor both ids
 package engine
 
 // Bounded stand-in for the clause of C08 that no function contract of this framework reaches: "the
@@ -197,6 +202,99 @@ func TestGovcBounded(t *testing.T) {
 			e.Close()
 			os.RemoveAll(dir)
 		}
+	}
+	// ---- histories: the answer depends on the current metadata only ----
+	{
+		values2 := append(append([]any{}, values...), "5", "true")
+		filters2 := append(append([]flt{}, filters...), flt{"f = '5'", nil}, flt{"f = 'true'", nil}, flt{"f != '5'", nil})
+		dir := filepath.Join(base, "hist")
+		e := openAt(dir)
+		if e == nil {
+			return
+		}
+		meta := func(v any) map[string]any {
+			m := map[string]any{"other": "x"}
+			if v != nil {
+				m["f"] = v
+			}
+			return m
+		}
+		type pairIdx struct {
+			hist, fresh string
+			kind        string
+			prev, final any
+			live        map[string][]string
+		}
+		var all []pairIdx
+		askIn := func(e *Engine, idx, filter string) []string {
+			ids, err := e.VFilter(idx, filter, 10)
+			if err != nil {
+				return []string{"error: " + err.Error()}
+			}
+			sort.Strings(ids)
+			return ids
+		}
+		hn := 0
+		for _, prev := range values2 {
+			for _, final := range values2 {
+				for _, kind := range []string{"in-place update", "delete and re-add", "delete"} {
+					if kind == "in-place update" && final == nil {
+						continue // VSetMetadata merges: it cannot remove a field
+					}
+					hn++
+					h, f := fmt.Sprintf("h%d", hn), fmt.Sprintf("f%d", hn)
+					e.VCreate(h, distance.Euclidean, 8, 50, distance.Float32, "", nil, nil, nil)
+					e.VCreate(f, distance.Euclidean, 8, 50, distance.Float32, "", nil, nil, nil)
+					e.VAdd(h, "a", []float32{1, 0}, meta(prev))
+					e.VAdd(h, "b", []float32{0, 1}, meta(7.0))
+					var err error
+					switch kind {
+					case "in-place update":
+						err = e.VSetMetadata(h, "a", map[string]any{"f": final})
+						e.VAdd(f, "a", []float32{1, 0}, meta(final))
+					case "delete and re-add":
+						if err = e.VDelete(h, "a"); err == nil {
+							err = e.VAdd(h, "a", []float32{1, 0}, meta(final))
+						}
+						e.VAdd(f, "a", []float32{1, 0}, meta(final))
+					case "delete":
+						err = e.VDelete(h, "a")
+					}
+					if err != nil {
+						fmt.Printf("GOVC-BOUNDED-ERROR history %s %v -> %v: %v\n", kind, prev, final, err)
+						return
+					}
+					e.VAdd(f, "b", []float32{0, 1}, meta(7.0))
+					pi := pairIdx{hist: h, fresh: f, kind: kind, prev: prev, final: final, live: map[string][]string{}}
+					for _, fl := range filters2 {
+						explored++
+						want := askIn(e, f, fl.text)
+						got := askIn(e, h, fl.text)
+						pi.live[fl.text] = want
+						if len(want) == 1 {
+							nontrivial++
+						}
+						if !same(got, want) {
+							report("answer after "+kind+" differs from the answer of an index built directly with the same metadata (a.f: previous value of a's field, b.f: its final value)", prev, final, fl.text, want, got)
+						}
+					}
+					all = append(all, pi)
+				}
+			}
+		}
+		e.Close()
+		if e = openAt(dir); e == nil {
+			return
+		}
+		for _, pi := range all {
+			for _, fl := range filters2 {
+				explored++
+				if got := askIn(e, pi.hist, fl.text); !same(got, pi.live[fl.text]) {
+					report("answer after "+pi.kind+" and a restart differs from the answer of an index built directly with the same metadata (a.f: previous value of a's field, b.f: its final value)", pi.prev, pi.final, fl.text, pi.live[fl.text], got)
+				}
+			}
+		}
+		e.Close()
 	}
 	fmt.Printf("GOVC-BOUNDED-DONE explored=%d nontrivial=%d violations=%d\n", explored, nontrivial, violations)
 }
